@@ -340,11 +340,13 @@ Section Contracts.
   (* the world after one well-formed invocation of the connector: counted, and its readiness
      protocol back at the start of a cycle *)
   Definition bump (w : world) : world :=
-    mkWorld (w_net w) (w_lat w) (w_attempts w + 1) false (w_prl w) (w_prl w).
+    mkWorld (w_net w) (w_lat w) (w_attempts w + 1) false (w_prl w) (w_prl w) None.
   Definition set_pr_left (w : world) (p : nat) : world :=
-    mkWorld (w_net w) (w_lat w) (w_attempts w) (w_ready w) p (w_prl w).
+    mkWorld (w_net w) (w_lat w) (w_attempts w) (w_ready w) p (w_prl w) (w_break w).
   (* between two served requests the connector is at the start of a cycle *)
-  Definition Canon (w : world) : Prop := w_ready w = false /\ w_pr_left w = w_prl w.
+  (* ... and it is a sound connector: its poll_ready never errs *)
+  Definition Canon (w : world) : Prop :=
+    w_ready w = false /\ w_pr_left w = w_prl w /\ w_break w = None.
   (* a connect future never hands over a connection that hyper already reports closed *)
   Definition usable (r : result conn cerr) : Prop := forall c, r = Ok c -> c <> Closed.
   Lemma connect_answer_usable : forall w, usable (connect_answer w).
@@ -381,7 +383,7 @@ Section Contracts.
   Qed.
 
   Lemma loop_idle : forall lf rc w,
-    rc_state rc = Idle -> (3 <= lf)%nat ->
+    rc_state rc = Idle -> w_break w = None -> (3 <= lf)%nat ->
     pr_loop' lf rc w =
       match w_pr_left w with
       | S p => (rc, set_pr_left w p, PrPending)      (* the connector is not ready yet *)
@@ -394,10 +396,11 @@ Section Contracts.
         end
       end.
   Proof.
-    intros lf rc w Hs Hlf. destruct lf as [|lf]; try lia.
+    intros lf rc w Hs Hbk Hlf. destruct lf as [|lf]; try lia.
     unfold pr_loop'. cbn [pr_loop]. rewrite Hs. unfold mk_poll_ready.
     destruct (w_pr_left w) as [|p] eqn:Hp; [|reflexivity].
-    cbn [make_service w_ready w_net w_lat w_attempts w_prl].
+    rewrite Hbk.
+    cbn [make_service w_ready w_net w_lat w_attempts w_prl w_break].
     fold pr_loop'. fold (bump w).
     rewrite (loop_connecting lf _ (bump w) (w_lat w) (connect_answer w));
       [| destruct rc; reflexivity | apply connect_answer_usable | lia].
@@ -496,15 +499,15 @@ Section Contracts.
      environment *)
   Lemma serve_idle : forall p f rc w,
     rc_state rc = Idle -> rc_error rc = None -> rc_hbc rc || rc_lazy rc = true ->
-    w_pr_left w = p -> (p + w_lat w + 3 <= f)%nat ->
+    w_break w = None -> w_pr_left w = p -> (p + w_lat w + 3 <= f)%nat ->
     serve' f (mkChan rc None) w =
       (let '(ch, o) := served_after_connect
                          (set_state (note_i2c rc) (Connecting (Fut O (connect_answer w)))) (connect_answer w) in
        (ch, bump w, o)).
   Proof.
-    induction p as [|p IH]; intros f rc w Hs He Hm Hp Hf; (destruct f as [|f]; try lia);
+    induction p as [|p IH]; intros f rc w Hs He Hm Hbk Hp Hf; (destruct f as [|f]; try lia);
       rewrite serve_S, poll_ready_no_error by assumption;
-      rewrite (loop_idle (S f) rc w Hs) by lia; rewrite Hp.
+      rewrite (loop_idle (S f) rc w Hs Hbk) by lia; rewrite Hp.
     - cbv zeta. destruct (w_lat w) as [|d] eqn:Hl.
       + set (rc0 := set_state (note_i2c rc) (Connecting (Fut O (connect_answer w)))).
         assert (Hm0 : rc_hbc rc0 || rc_lazy rc0 = true) by (destruct rc; exact Hm).
@@ -515,15 +518,15 @@ Section Contracts.
       + rewrite (serve_connecting d f _ (bump w) (connect_answer w)); try lia;
           try apply connect_answer_usable;
           destruct rc as [st er hbc lz gh]; simpl in *; subst; auto.
-    - rewrite (IH f rc (set_pr_left w p) Hs He Hm); [destruct w; reflexivity | reflexivity | cbn; lia].
+    - rewrite (IH f rc (set_pr_left w p) Hs He Hm); [destruct w; reflexivity | exact Hbk | reflexivity | cbn; lia].
   Qed.
 
   Definition world_with (w : world) (n : N) : world :=
-    mkWorld (w_net w) (w_lat w) n false (w_prl w) (w_prl w).
+    mkWorld (w_net w) (w_lat w) n false (w_prl w) (w_prl w) None.
 
   Lemma serve_idle_spec : forall f rc w,
     rc_state rc = Idle -> rc_error rc = None -> rc_hbc rc || rc_lazy rc = true ->
-    (w_pr_left w + w_lat w + 3 <= f)%nat ->
+    w_break w = None -> (w_pr_left w + w_lat w + 3 <= f)%nat ->
     exists ch',
       serve' f (mkChan rc None) w =
         (ch', world_with w (snd (fst (spec_call ANone (w_net w) (w_attempts w)))),
@@ -533,9 +536,9 @@ Section Contracts.
       rc_i2c (ch_rc ch') + w_attempts w =
         rc_i2c rc + snd (fst (spec_call ANone (w_net w) (w_attempts w))).
   Proof.
-    intros f rc w Hs He Hm Hf. rewrite (serve_idle (w_pr_left w) f rc w Hs He Hm eq_refl Hf).
+    intros f rc w Hs He Hm Hbk Hf. rewrite (serve_idle (w_pr_left w) f rc w Hs He Hm Hbk eq_refl Hf).
     unfold connect_answer. cbn [spec_call].
-    destruct w as [net lat n rd pl prl]. cbn [w_net w_attempts w_lat w_prl bump world_with].
+    destruct w as [net lat n rd pl prl bk]. cbn [w_net w_attempts w_lat w_prl bump world_with].
     destruct rc as [st er hbc lz gh]; simpl in *; subst.
     destruct net as [|r|r|]; cbn; unfold sent_outcome;
       rewrite ?(sc_send_alive _ _ HC), ?(sc_send_severed _ _ HC);
@@ -552,7 +555,7 @@ Section Contracts.
       (rc_i2c (ch_rc ch') + w_attempts w =
        rc_i2c (ch_rc ch) + snd (fst (spec_call (abs ch) (w_net w) (w_attempts w)))).
   Proof.
-    intros f [rc fl] w [Hf He Hm Hq] [Hrd Hpl] Hfu. simpl in Hf, He, Hm, Hq. subst fl.
+    intros f [rc fl] w [Hf He Hm Hq] (Hrd & Hpl & Hbk) Hfu. simpl in Hf, He, Hm, Hq. subst fl.
     unfold abs. cbn [ch_rc].
     destruct (rc_state rc) as [|fut|c] eqn:Hs; [| contradiction |].
     - (* Idle *)
@@ -563,14 +566,14 @@ Section Contracts.
         rewrite (loop_usable (S f) rc w Alive Hs) by (congruence || lia).
         destruct rc as [st er hbc lz gh]; simpl in *; subst. unfold finish_ready. cbn.
         unfold sent_outcome. rewrite (sc_send_alive _ _ HC).
-        destruct w as [net lat n rd pl prl]. simpl in Hrd, Hpl. subst rd pl. cbn.
+        destruct w as [net lat n rd pl prl bk]. simpl in Hrd, Hpl, Hbk. subst rd pl bk. cbn.
         eexists; split; [reflexivity|]. split; [constructor; simpl; auto|]. split; [reflexivity|]. simpl. lia.
       + (* Severed: the request is sent and cancelled; within a batch the connection still looks usable *)
         destruct f as [|f]; try lia. rewrite serve_S, poll_ready_no_error by assumption.
         rewrite (loop_usable (S f) rc w Severed Hs) by (congruence || lia).
         destruct rc as [st er hbc lz gh]; simpl in *; subst. unfold finish_ready. cbn.
         unfold sent_outcome. rewrite (sc_send_severed _ _ HC).
-        destruct w as [net lat n rd pl prl]. simpl in Hrd, Hpl. subst rd pl. cbn.
+        destruct w as [net lat n rd pl prl bk]. simpl in Hrd, Hpl, Hbk. subst rd pl bk. cbn.
         eexists; split; [reflexivity|]. split; [constructor; simpl; auto|]. split; [reflexivity|]. simpl. lia.
       + (* Closed: poll_ready falls through to Idle inside the same loop *)
         destruct f as [|f]; try lia. rewrite serve_S, poll_ready_no_error by assumption.
@@ -592,7 +595,7 @@ Section Contracts.
         assert (Hsame : pr_loop' f rcI w = pr_loop' (S f) rcI w).
         { rewrite !loop_idle by (try lia; assumption). reflexivity. }
         rewrite Hsame, <- Hidle. cbn [abs_state].
-        destruct (serve_idle_spec (S f) rcI w HsI HeI HmI) as (ch' & E & G & A & I); [lia|].
+        destruct (serve_idle_spec (S f) rcI w HsI HeI HmI Hbk) as (ch' & E & G & A & I); [lia|].
         exists ch'. split; [exact E|]. split; [exact G|]. split; [exact A|].
         replace (rc_i2c rc) with (rc_i2c rcI) by (destruct rc; reflexivity). exact I.
   Qed.
@@ -631,19 +634,19 @@ Section Contracts.
 
   (* the k queued requests of a batch *)
   Lemma canon_world_with : forall w n, Canon (world_with w n).
-  Proof. intros; split; reflexivity. Qed.
+  Proof. intros; repeat split; reflexivity. Qed.
 
   Lemma serve_batch_spec : forall k f ch w rs a' net' n',
     Good ch -> Canon w -> (w_lat w + w_prl w + 4 <= f)%nat ->
     spec_micro (repeat MCall k) (abs ch) (w_net w) (w_attempts w) = (rs, a', net', n') ->
     exists ch',
-      serve_batch' f k ch w = (rs, ch', mkWorld net' (w_lat w) n' false (w_prl w) (w_prl w)) /\
+      serve_batch' f k ch w = (rs, ch', mkWorld net' (w_lat w) n' false (w_prl w) (w_prl w) None) /\
       Good ch' /\ abs ch' = a' /\
       rc_i2c (ch_rc ch') + w_attempts w = rc_i2c (ch_rc ch) + n'.
   Proof.
     induction k as [|k IH]; intros f ch w rs a' net' n' HG HW Hf Hsp.
     - simpl in Hsp. inversion Hsp; subst. exists ch.
-      destruct w as [net lat n rd pl prl]. destruct HW as [Hrd Hpl]. simpl in Hrd, Hpl. subst rd pl. cbn.
+      destruct w as [net lat n rd pl prl bk]. destruct HW as (Hrd & Hpl & Hbk). simpl in Hrd, Hpl, Hbk. subst rd pl bk. cbn.
       split; [reflexivity|]. split; [assumption|]. split; reflexivity.
     - cbn [repeat spec_micro] in Hsp.
       destruct (serve_spec f ch w HG HW Hf) as (ch1 & Es & G1 & A1 & I1).
@@ -659,20 +662,20 @@ Section Contracts.
   Qed.
 
   Lemma canon_set_net : forall w n, Canon w -> Canon (set_net w n).
-  Proof. intros w n [H1 H2]; split; assumption. Qed.
+  Proof. intros w n (H1 & H2 & H3); repeat split; assumption. Qed.
 
   Lemma run_steps_spec : forall h f ch w rs a' net' n',
     Good ch -> Canon w -> (w_lat w + w_prl w + 4 <= f)%nat ->
     spec_steps h (abs ch) (w_net w) (w_attempts w) = (rs, a', net', n') ->
     exists ch',
-      run_steps' f h ch w = (rs, ch', mkWorld net' (w_lat w) n' false (w_prl w) (w_prl w)) /\
+      run_steps' f h ch w = (rs, ch', mkWorld net' (w_lat w) n' false (w_prl w) (w_prl w) None) /\
       Good ch' /\ abs ch' = a' /\
       rc_i2c (ch_rc ch') + w_attempts w = rc_i2c (ch_rc ch) + n'.
   Proof.
     unfold spec_steps.
     induction h as [|s h IH]; intros f ch w rs a' net' n' HG HW Hf Hsp.
     - simpl in Hsp. inversion Hsp; subst. exists ch.
-      destruct w as [net lat n rd pl prl]. destruct HW as [Hrd Hpl]. simpl in Hrd, Hpl. subst rd pl. cbn.
+      destruct w as [net lat n rd pl prl bk]. destruct HW as (Hrd & Hpl & Hbk). simpl in Hrd, Hpl, Hbk. subst rd pl bk. cbn.
       split; [reflexivity|]. split; [assumption|]. split; reflexivity.
     - destruct s as [e|b|k].
       + (* environment event *)
@@ -702,8 +705,8 @@ Section Contracts.
         destruct (spec_micro (flatten h) (abs_settle a1) net1 n1) as [[[rs2 a2] net2] n2] eqn:E2.
         injection Hsp as <- <- <- <-.
         destruct (serve_batch_spec k f ch w rs1 a1 net1 n1 HG HW Hf E1) as (ch1 & Eb & G1 & A1 & I1).
-        destruct (IH f (settle ch1) (mkWorld net1 (w_lat w) n1 false (w_prl w) (w_prl w)) rs2 a2 net2 n2
-                     (good_settle _ G1) (conj eq_refl eq_refl) Hf)
+        destruct (IH f (settle ch1) (mkWorld net1 (w_lat w) n1 false (w_prl w) (w_prl w) None) rs2 a2 net2 n2
+                     (good_settle _ G1) (conj eq_refl (conj eq_refl eq_refl)) Hf)
           as (ch' & E & G & A & I).
         { rewrite abs_settle_ch, A1. exact E2. }
         exists ch'. unfold run_steps' in *. cbn [run_steps]. fold serve_batch'. rewrite Eb, E.
@@ -746,14 +749,15 @@ Section Contracts.
   Qed.
 
   Lemma ready_oneshot_idle : forall p f rc w,
-    rc_state rc = Idle -> rc_error rc = None -> w_pr_left w = p -> (p + w_lat w + 3 <= f)%nat ->
+    rc_state rc = Idle -> rc_error rc = None -> w_break w = None -> w_pr_left w = p ->
+    (p + w_lat w + 3 <= f)%nat ->
     ready_oneshot' f rc w =
       (let '(rc', q) := after_connect (set_state (note_i2c rc) (Connecting (Fut O (connect_answer w))))
                                       (connect_answer w) in (rc', bump w, ro_of q)).
   Proof.
-    induction p as [|p IH]; intros f rc w Hs He Hp Hf; (destruct f as [|f]; try lia);
+    induction p as [|p IH]; intros f rc w Hs He Hbk Hp Hf; (destruct f as [|f]; try lia);
       rewrite ready_oneshot_S, poll_ready_no_error by assumption;
-      rewrite (loop_idle (S f) rc w Hs) by lia; rewrite Hp.
+      rewrite (loop_idle (S f) rc w Hs Hbk) by lia; rewrite Hp.
     - cbv zeta. destruct (w_lat w) as [|d] eqn:Hl.
       + pose proof (after_connect_not_pending
                       (set_state (note_i2c rc) (Connecting (Fut O (connect_answer w)))) (connect_answer w)) as Hq.
@@ -762,11 +766,11 @@ Section Contracts.
       + erewrite (ready_oneshot_connecting d f);
           [| destruct rc; reflexivity | apply connect_answer_usable | destruct rc; assumption | lia].
         destruct rc; reflexivity.
-    - rewrite (IH f rc (set_pr_left w p) Hs He); [destruct w; reflexivity | reflexivity | cbn; lia].
+    - rewrite (IH f rc (set_pr_left w p) Hs He); [destruct w; reflexivity | exact Hbk | reflexivity | cbn; lia].
   Qed.
 
   Lemma build_eager : forall f w,
-    (w_pr_left w + w_lat w + 4 <= f)%nat ->
+    w_break w = None -> (w_pr_left w + w_lat w + 4 <= f)%nat ->
     build' false f w =
       match w_net w with
       | Up => (Some (mkChan (mkRc (Connected Alive) None true false 1) None), bump w, Some RoOk)
@@ -775,8 +779,8 @@ Section Contracts.
       | UpGarbage => (Some (mkChan (mkRc (Connected Closed) None true false 1) None), bump w, Some RoOk)
       end.
   Proof.
-    intros f w Hf. unfold build', build. fold ready_oneshot'.
-    rewrite (ready_oneshot_idle (w_pr_left w) f (new_reconnect false) w) by (reflexivity || lia).
+    intros f w Hbk Hf. unfold build', build. fold ready_oneshot'.
+    rewrite (ready_oneshot_idle (w_pr_left w) f (new_reconnect false) w) by (reflexivity || assumption || lia).
     unfold connect_answer. destruct (w_net w); reflexivity.
   Qed.
 
@@ -800,20 +804,20 @@ Section Contracts.
       destruct (spec_steps h ANone net0 0) as [[[rs a'] net'] n'] eqn:Es.
       assert (G : Good (mkChan (new_reconnect true) None)) by (constructor; simpl; auto).
       destruct (run_steps_spec h f (mkChan (new_reconnect true) None) (init_world net0 lat prl) rs a' net' n' G
-                               (conj eq_refl eq_refl) Hf Es)
+                               (conj eq_refl (conj eq_refl eq_refl)) Hf Es)
         as (ch' & E & _ & _ & I).
       fold run_steps'. rewrite E. cbn [ch_rc rc_i2c w_attempts new_reconnect init_world] in I. cbn [w_attempts]. f_equal. f_equal. lia.
-    - rewrite build_eager by (cbn; lia). cbn [init_world w_net bump w_lat w_attempts w_prl spec_result].
+    - rewrite build_eager by (reflexivity || (cbn; lia)). cbn [init_world w_net bump w_lat w_attempts w_prl spec_result].
       destruct net0 as [|r|r|]; try reflexivity.
       + destruct (spec_steps h AAlive Up 1) as [[[rs a'] net'] n'] eqn:Es.
         assert (G : Good (mkChan (mkRc (Connected Alive) None true false 1) None)) by (constructor; simpl; auto).
-        destruct (run_steps_spec h f _ (mkWorld Up lat (0 + 1) false prl prl) rs a' net' n' G
-                                 (conj eq_refl eq_refl) Hf Es) as (ch' & E & _ & _ & I).
+        destruct (run_steps_spec h f _ (mkWorld Up lat (0 + 1) false prl prl None) rs a' net' n' G
+                                 (conj eq_refl (conj eq_refl eq_refl)) Hf Es) as (ch' & E & _ & _ & I).
         fold run_steps'. unfold bump, init_world. cbn [w_net w_lat w_attempts w_prl]. rewrite E. cbn [ch_rc rc_i2c w_attempts new_reconnect init_world] in I. cbn [w_attempts]. f_equal. f_equal. lia.
       + destruct (spec_steps h ANone UpGarbage 1) as [[[rs a'] net'] n'] eqn:Es.
         assert (G : Good (mkChan (mkRc (Connected Closed) None true false 1) None)) by (constructor; simpl; auto).
-        destruct (run_steps_spec h f _ (mkWorld UpGarbage lat (0 + 1) false prl prl) rs a' net' n' G
-                                 (conj eq_refl eq_refl) Hf Es) as (ch' & E & _ & _ & I).
+        destruct (run_steps_spec h f _ (mkWorld UpGarbage lat (0 + 1) false prl prl None) rs a' net' n' G
+                                 (conj eq_refl (conj eq_refl eq_refl)) Hf Es) as (ch' & E & _ & _ & I).
         fold run_steps'. unfold bump, init_world. cbn [w_net w_lat w_attempts w_prl]. rewrite E. cbn [ch_rc rc_i2c w_attempts new_reconnect init_world] in I. cbn [w_attempts]. f_equal. f_equal. lia.
   Qed.
 End Contracts.
@@ -1159,3 +1163,78 @@ Proof. constructor; reflexivity. Qed.
 
 Lemma fuel_for_enough : forall lat prl, enough_fuel lat prl (fuel_for lat prl).
 Proof. intros lat prl. unfold enough_fuel, fuel_for. lia. Qed.
+
+(* ================================================================ OBSERVATION: a connector whose
+   poll_ready errs (tower: such a service is dead).  Not part of the property; stated so that the
+   behaviour the model ascribes to the real stack is explicit. *)
+Section BrokenConnector.
+  Variable cpr : conn -> poll (result unit unit).
+  Variable sreq : conn -> send_result.
+
+  Lemma serve_failed : forall fuel ch w e,
+    ch_failed ch = Some e -> serve cpr sreq fuel ch w = (ch, w, WorkerClosed).
+  Proof. intros fuel ch w e H. destruct fuel; simpl; rewrite H; reflexivity. Qed.
+
+  Lemma serve_batch_failed : forall k fuel ch w e,
+    ch_failed ch = Some e ->
+    exists rs, serve_batch cpr sreq fuel k ch w = (rs, ch, w) /\
+               Forall (fun c => rec_outcome c = WorkerClosed) rs /\ length rs = k.
+  Proof.
+    induction k as [|k IH]; intros fuel ch w e H.
+    - exists []. repeat split. constructor.
+    - cbn [serve_batch]. rewrite (serve_failed fuel ch w e H).
+      destruct (IH fuel ch w e H) as (rs & E & F & L). rewrite E.
+      eexists. split; [reflexivity|]. split; [constructor; [reflexivity|exact F] | simpl; congruence].
+  Qed.
+
+  (* once the Buffer worker has failed it stays failed: whatever the environment does afterwards,
+     every later call is refused (Status::unknown "Service was not ready") - no recovery *)
+  Theorem worker_failure_is_permanent : forall h fuel ch w e,
+    ch_failed ch = Some e ->
+    Forall (fun c => rec_outcome c = WorkerClosed) (fst (fst (run_steps cpr sreq fuel h ch w))) /\
+    ch_failed (snd (fst (run_steps cpr sreq fuel h ch w))) = Some e /\
+    length (fst (fst (run_steps cpr sreq fuel h ch w))) = count_calls h.
+  Proof.
+    induction h as [|s h IH]; intros fuel ch w e H.
+    - cbn. repeat split; auto.
+    - destruct s as [ev|b|k]; cbn [run_steps count_calls].
+      + destruct ev; cbn [apply_ev]; try (apply IH; exact H).
+        apply IH. destruct ch as [[st er hbc lz gh] fl]. unfold drop_conn. simpl in *.
+        destruct st as [|fut|[]]; exact H.
+      + apply IH. destruct ch as [[st er hbc lz gh] fl]. unfold drop_conn. simpl in *.
+        destruct st as [|fut|[]]; exact H.
+      + destruct (serve_batch_failed k fuel ch w e H) as (rs & E & F & L). rewrite E.
+        assert (Hs : ch_failed (settle ch) = Some e) by (destruct ch; exact H).
+        destruct (IH fuel (settle ch) w e Hs) as (F2 & C2 & L2).
+        destruct (run_steps cpr sreq fuel h (settle ch) w) as [[rs2 ch2] w2]. cbn [fst snd] in *.
+        split; [apply Forall_app; split; assumption|]. split; [exact C2|].
+        rewrite app_length. congruence.
+  Qed.
+
+  (* a request that needs the connector while its poll_ready errs: the error (a ConnectError,
+     UNAVAILABLE) goes to this request and the worker is failed *)
+  Theorem broken_connector_fails_worker : forall p fuel rc w r,
+    rc_state rc = Idle -> rc_error rc = None ->
+    w_break w = Some (O, r) -> w_pr_left w = p -> (p + 1 <= fuel)%nat ->
+    exists w',
+      serve cpr sreq fuel (mkChan rc None) w =
+        (mkChan rc (Some (mkErr 0 r NotReady)), w', ServiceFailed (mkErr 0 r NotReady)) /\
+      w_attempts w' = w_attempts w.
+  Proof.
+    induction p as [|p IH]; intros fuel rc w r Hs He Hb Hp Hf; (destruct fuel as [|fuel]; try lia).
+    - exists w. cbn [serve ch_failed ch_rc]. unfold poll_ready. rewrite He. cbn [pr_loop].
+      rewrite Hs. unfold mk_poll_ready. rewrite Hp, Hb. split; reflexivity.
+    - cbn [serve ch_failed ch_rc]. unfold poll_ready. rewrite He. cbn [pr_loop].
+      rewrite Hs. unfold mk_poll_ready. rewrite Hp.
+      set (w1 := mkWorld (w_net w) (w_lat w) (w_attempts w) (w_ready w) p (w_prl w) (w_break w)).
+      destruct (IH fuel rc w1 r Hs He Hb eq_refl) as (w' & E & A); [lia|].
+      exists w'. split; [exact E | exact A].
+  Qed.
+
+  Lemma service_failed_codes : forall e,
+    outcome_code (ServiceFailed e) = Some Code_Unavailable /\ outcome_code WorkerClosed = Some Code_Unknown.
+  Proof.
+    intro e. split; [|reflexivity]. unfold outcome_code, chain_of, chain_of_err.
+    rewrite from_error_skips_unknown_wrappers. exact (chain_connect _).
+  Qed.
+End BrokenConnector.
